@@ -4,6 +4,7 @@ import os
 import z3
 
 from pyvc.vals import Val, NONE, S, B, I, K, LAT, TYP, sub, SeqV, Str, AVV, AVB, BASE, fresh, truthy, is_exc, St, Unsupported
+from specs.util import accumulator
 from pyvc.engine import Exec, Bound
 from pyvc import engine as _eng
 from pyvc.repo import Repo
@@ -210,7 +211,7 @@ def play(mode='explicit', props=None):
     def loop(ex_, s0, n, itv):
         if not (isinstance(n, ast.For) and ex_.is_kind(s0, itv, 'groupitems')):
             return None
-        res = s0.lookup('result'); tc, tr = n.target.elts[0].id, n.target.elts[1].id
+        res = accumulator(ex_, s0, 'dict', 'result'); tc, tr = n.target.elts[0].id, n.target.elts[1].id
         lookup = 'lookup_mode' in s0.g
         ks = s0.seq(s0.g['lookup_mode']) if lookup else keys
 
